@@ -56,6 +56,18 @@ pub fn run(ctx: &Ctx) -> (Report, String) {
     });
     let mut rep = Report::merge_all(reps);
     rep.merge(pre);
+    if !ctx.miri() && (ctx.is_main() || ctx.stage == "asan") {
+        let n = ladder_items(ctx).len();
+        let lr = par_shards(n, ctx.threads, |k| {
+            let mut r = Report::new();
+            crate::mon::guarded(&mut r, || J::obj().set("property", "C03").set("kind", "ladder").set("k", k), |r| ladder_case(ctx, k, r));
+            r
+        });
+        rep.merge(Report::merge_all(lr));
+        if ctx.is_main() {
+            rep.require("ladder_p_pictures_compared", 3 * n as u64);
+        }
+    }
     if ctx.is_main() {
         let m = ctx.scale_pct;
         rep.require("p_pictures_compared", if ctx.tier == Tier::Quick { 200_000 } else { 3_000_000 } * m / 100);
@@ -104,6 +116,72 @@ pub fn conformance(rep: &mut Report) {
         let ok = matches!(got, Ok(Some(f)) if (f * 2.0) as i32 == d && f * 2.0 == d as f32) && rd.verif_position().0 == c.1 as usize;
         if !ok {
             rep.violation("table/MVD", format!("MVD {} decodes to {:?}", d, got.map_err(|e| format!("{:?}", e))), tag());
+        }
+    }
+}
+
+/// Boundary-value ladder (see mon/ladder.rs): large / extreme-dimension reference, then a complete
+/// and an early-ending predicted picture on top of it.
+pub fn ladder_items(ctx: &Ctx) -> Vec<(Flavour, usize, usize)> {
+    let mut rng = Rng::new(ctx.seed ^ 0xC03AD, 0);
+    let mut v = vec![];
+    for (i, (w, h)) in super::ladder::boundary_dims(&mut rng, ctx.tier == Tier::Thorough).into_iter().enumerate() {
+        v.push((Flavour::Sor((i % 2) as u8), w, h));
+    }
+    for (w, h) in super::ladder::std_boundary_dims() {
+        v.push((Flavour::StdPlus, w, h));
+    }
+    // same size, spelled with different size codes in the two headers (fixed code vs custom)
+    for (w, h) in [(352usize, 288usize), (176, 144), (128, 96), (320, 240), (160, 120)] {
+        v.push((Flavour::Sor(0), w, h));
+    }
+    v
+}
+
+pub fn ladder_case(ctx: &Ctx, k: usize, rep: &mut Report) {
+    let items = ladder_items(ctx);
+    let (flavour, w, h) = items[k];
+    let mut rng = Rng::new(ctx.seed ^ 0xC03AD, 1 + k as u64);
+    let coords = |what: &str| J::obj().set("property", "C03").set("kind", "ladder").set("tier", ctx.tier_name()).set("seed", ctx.seed).set("stage", ctx.stage.clone()).set("k", k).set("what", format!("{} {}x{} {}", flavour.name(), w, h, what));
+    let n = ((w + 15) / 16) * ((h + 15) / 16);
+    let mut cuts: Vec<Option<usize>> = vec![None, Some(n / 2), Some(n.saturating_sub(1))];
+    for t in [0usize, 1, 1024, 4095, 4096, 4097, 8192] {
+        if t < n {
+            cuts.push(Some(t));
+        }
+    }
+    for (ci, cut) in cuts.into_iter().enumerate() {
+        let mut cfg = super::ladder::cfg_for(&mut rng, flavour, w, h, 0);
+        // the reference prefers the fixed size code where one exists, the predicted picture the custom one
+        cfg.prefer_fixed_size_code = true;
+        cfg.force16 = false;
+        let refpic = super::ladder::large_intra(&mut rng, &cfg);
+        let rb = refpic.encode();
+        let mut dec = Dec::new(flavour.sorenson(), false);
+        rep.evaluations += 1;
+        if dec.decode(&rb) != Outcome::Ok {
+            rep.count("ladder_skipped:reference");
+            return;
+        }
+        let refp = dec.planes().unwrap();
+        cfg.tr = cfg.tr.wrapping_add(1);
+        cfg.prefer_fixed_size_code = ci % 2 == 1;
+        cfg.force16 = ci % 3 == 2;
+        let pic = super::ladder::large_inter(&mut rng, &cfg, false, cut);
+        let bytes = pic.encode();
+        match check_inter(&mut dec, &refp, &pic, &bytes) {
+            Ok(_) => {
+                rep.count("ladder_p_pictures_compared");
+                if cut.is_some() {
+                    rep.count("ladder_truncated_compared");
+                }
+                rep.distinct.insert(fnv64(&bytes));
+            }
+            Err(f) if f.sig == "generator-invalid" => rep.inconclusive.push(f.detail),
+            Err(f) => {
+                rep.violation(format!("ladder/{}", f.sig), format!("{} {}x{} ({} macroblocks) cut={:?}: {}", flavour.name(), w, h, n, cut, f.detail), coords(&format!("cut={:?}", cut)));
+                return;
+            }
         }
     }
 }
